@@ -28,7 +28,15 @@ META = {
              "(one likelihood / posterior / multiple-likelihood posterior whose noise parameter, data, prior mean and model domain geometry "
              "are reassigned through public attributes and whose FD flags are toggled; invariants SeqIsFresh, SeqQuad, SeqDiffers, "
              "SeqReference; deviation DevStaleAfterAssign refuted by TLC): after every operation the gradient is that of the CURRENT "
-             "configuration."),
+             "configuration. Siblings (FamiliesSeq part Siblings; invariant SibOwnAnswer, deviation DevSharedDerived refuted by TLC): ONE "
+             "conditional distribution of every family (parameters of the assignment units as callables) conditioned to the two "
+             "configurations of every Reassign pair, both copies alive; every TLC-enumerated interleaving of Condition A / Condition B / "
+             "evaluations / one use of the original is driven on real objects and after every evaluation log-density and gradient "
+             "(analytic / finite differences) are those of the evaluated copy's OWN configuration. Points (FamiliesSeq part Points): "
+             "every dimension-1 family over its whole offset lattice, likelihood / posterior / multiple-likelihood posterior of the "
+             "one-parameter models and the posterior of a scalar hyper-parameter, evaluated with the point as python float, numpy "
+             "scalar, 0-d array, 1-element array, 1-element list and CUQIarray at magnitudes below and above one, analytic and with "
+             "enable_FD()."),
     "note": ("A raised exception is accepted wherever a vector is specified (the property only constrains returned vectors) and is "
              "reported as an observation; FD results are compared at forward-difference accuracy; PDE-based models, "
              "DistributionGallery targets are not modelled; user-defined distributions: pass-through of gradient_func, refusal "
@@ -564,12 +572,14 @@ def run(ctx):
     from cuqiverif import families_common as fc, tlc
     from cuqiverif.core import MachineryError
     from cuqiverif.props import c04
-    from cuqiverif import c03_seq
+    from cuqiverif import c03_seq, c03_round5
     seq_jobs = c03_seq.start_tlc(ctx)          # Families.reassign + FamiliesSeq (+ its named deviation), in background threads
+    r5_jobs = c03_round5.start_tlc(ctx)        # FamiliesSeq parts Siblings (+ named deviation) and Points
     try:
         res = fc.run_families(ctx)
     except BaseException:
         c03_seq.discard_tlc(seq_jobs)
+        c03_round5.discard_tlc(r5_jobs)
         raise
     ctx.model_must_hold(res, "Families")
     cases = list(res.cases)
@@ -599,9 +609,16 @@ def run(ctx):
     # sequences of public operations on ONE object: parameters / data / prior / model geometry reassigned, FD toggled
     ctx.traces = n
     try:
-        c03_seq.run(ctx, table, seq_jobs)
+        re_cases = c03_seq.run(ctx, table, seq_jobs)
     except BaseException:
         c03_seq.discard_tlc(seq_jobs)
+        c03_round5.discard_tlc(r5_jobs)
+        raise
+    # two conditioned copies of ONE conditional distribution alive together; dimension-1 evaluation points in every container
+    try:
+        c03_round5.run(ctx, table, r5_jobs, re_cases)
+    except BaseException:
+        c03_round5.discard_tlc(r5_jobs)
         raise
     n = ctx.traces
     ctx.observations["cases_per_family"] = {f: len(v) for f, v in fams.items()}
@@ -617,14 +634,19 @@ def run(ctx):
                 "threshold, geometry kind, FD flag) evaluated on the real objects; sequences: one behaviour of Families.Reassign per "
                 "(start configuration, order of the assignment units) on one distribution object, and per base configuration of "
                 "FamiliesSeq walks through its state graph (every operation forth and back, assign-before-first-use, seeded walks) on "
-                "one likelihood, one posterior and one multiple-likelihood posterior")
+                "one likelihood, one posterior and one multiple-likelihood posterior; siblings: per Reassign pair and prefix of its "
+                "assignment order (= callable parameters of the conditional original) the behaviour Condition A, Condition B, Evaluate A, "
+                "use of the original, Evaluate B, Evaluate A plus behaviours of FamiliesSeq.Siblings in rotation (thorough: all of "
+                "them); points: one case per (dimension-1 configuration, way of passing parameters, container kind, FD flag)")
     ctx.exhaustive = True
     ctx.traces = n
     ctx.assumptions += ["equality 'gradient = derivative of this object's log-density' uses the same lattice points whose logpdf is "
                         "compared with the documented density under C04 (and here for likelihoods / posteriors)",
                         "finite-difference results are compared at forward-difference accuracy only",
                         "a raised exception where a vector is specified is not a violation (recorded as observation)",
-                        "PDE-based models, DistributionGallery targets and user-supplied gradient callables are not modelled"]
+                        "PDE-based models, DistributionGallery targets and user-supplied gradient callables are not modelled",
+                        "a container of the evaluation point that the implementation refuses (exception) is an observation; "
+                        "ModifiedHalfNormal points only where alpha = beta = gamma (finding C03-F3)"]
 
 
 def replay(ctx, case):
@@ -637,4 +659,7 @@ def replay(ctx, case):
     if case.get("kind") in ("reassign_seq", "seqwalk"):
         from cuqiverif import c03_seq
         return c03_seq.replay(ctx, table, case)
+    if case.get("kind") in ("siblings", "point", "ptlik", "pthyp"):
+        from cuqiverif import c03_round5
+        return c03_round5.replay(ctx, table, case)
     dispatch(ctx, table, case, extras=True, idx=case.get("cfg", {}).get("x", 0))
